@@ -532,6 +532,7 @@ func (s *Scorch) persistSnapshotMaybeMerge(snapshot *IndexSnapshot, po *persiste
 	defer func() {
 		_ = newSnapshot.DecRef()
 	}()
+	verifCrashPoint(s, "persist:inmem-merged")
 
 	// construct a snapshot that's logically equivalent to the input
 	// snapshot, but with merged segments replaced by the new segment
@@ -806,6 +807,7 @@ func (s *Scorch) persistSnapshotDirect(snapshot *IndexSnapshot) (err error) {
 	if err != nil {
 		return err
 	}
+	verifCrashPoint(s, "persist:files-written")
 
 	// we need to swap in a new root only when we've persisted 1 or
 	// more segments -- whereby the new root would have 1-for-1
@@ -848,15 +850,19 @@ func (s *Scorch) persistSnapshotDirect(snapshot *IndexSnapshot) (err error) {
 		<-persist.applied
 	}
 
+	verifCrashPoint(s, "persist:before-commit")
 	err = tx.Commit()
 	if err != nil {
 		return err
 	}
+	verifDurable(s, "bolt-commit", snapshot.epoch, filenames)
+	verifCrashPoint(s, "persist:after-commit")
 
 	err = s.rootBolt.Sync()
 	if err != nil {
 		return err
 	}
+	verifCrashPoint(s, "persist:after-sync")
 
 	// allow files to become eligible for removal after commit, such
 	// as file segments from snapshots that came from the merger
@@ -1285,6 +1291,9 @@ func (s *Scorch) removeOldData() {
 		))
 	}
 	atomic.AddUint64(&s.stats.TotSnapshotsRemovedFromMetaStore, uint64(removed))
+	if removed > 0 {
+		verifCrashPoint(s, "purge:bolt-removed")
+	}
 
 	err = s.removeOldZapFiles()
 	if err != nil {
@@ -1434,6 +1443,7 @@ func (s *Scorch) removeOldBoltSnapshots() (numRemoved int, err error) {
 
 	for _, epochToRemove := range epochsToRemove {
 		k := encodeUvarintAscending(nil, epochToRemove)
+		verifDurable(s, "bolt-remove", epochToRemove, nil)
 		err = snapshots.DeleteBucket(k)
 		if err == bolt.ErrBucketNotFound {
 			err = nil
@@ -1487,10 +1497,12 @@ func (s *Scorch) removeOldZapFiles() error {
 		fname := f.Name()
 		if filepath.Ext(fname) == ".zap" {
 			if _, exists := liveFileNames[fname]; !exists && !s.ineligibleForRemoval[fname] && (s.copyScheduled[fname] <= 0) {
+				verifDurable(s, "zap-remove", 0, []string{fname})
 				err := os.Remove(s.path + string(os.PathSeparator) + fname)
 				if err != nil {
 					log.Printf("got err removing file: %s, err: %v", fname, err)
 				}
+				verifCrashPoint(s, "purge:zap-removed")
 			}
 		}
 	}
